@@ -112,6 +112,18 @@ Definition nbeam_candidate (c : beam_cfg) (n : Z) : bool :=
   let f := Qfloor (b_len c / a_step c) in
   ((n =? Z.max (1 + f) 4) || (n =? Z.max (2 + f) 4))%Z.
 
+(* the larger of the two node values of the segment of the interpolator that contains z: raysect
+   evaluates y0 + (y1 - y0) * t in double precision, so near the low end of a steep segment the
+   result carries an absolute error of a few ulp of the LARGER node value *)
+Fixpoint seg_max_from (z0 y0 : Q) (rest : list (Q * Q)) (z : Q) : Q :=
+  match rest with
+  | [] => y0
+  | (z1, y1) :: t => if Qle_bool z z1 then (if Qle_bool y0 y1 then y1 else y0) else seg_max_from z1 y1 t z
+  end.
+Definition seg_max (nodes : list (Q * Q)) (z : Q) : Q :=
+  match nodes with [] => 0 | (z0, y0) :: t => seg_max_from z0 y0 t z end.
+Definition tol_interp : Q := pow2 (-46).
+
 (* one density probe: 0 = agrees, 1 = differs, 2 = ambiguous (clamp radius within 2^-30) *)
 Definition check_density (sqrtf expf : Q -> Q) (nodes : list (Q * Q)) (c : beam_cfg)
            (p : Q * Q * Q * Q) : Z :=
@@ -129,7 +141,9 @@ Definition check_density (sqrtf expf : Q -> Q) (nodes : list (Q * Q)) (c : beam_
       if a_clamp c && Qltb c2 r2 then (if Qeq_bool v 0 then 0 else 1)%Z
       (* m = 0 otherwise only when libm's exp underflowed to 0 in the table *)
       else if Qeq_bool m 0 then (if Qeq_bool v 0 then 0 else 1)%Z
-      else if Qltb 0 m && Qltb 0 v && close tol_density 0 m v then 0%Z else 1%Z.
+      else
+        let abs := tol_interp * seg_max nodes z * gaussian_of expf c sx sy r2 in
+        if Qltb 0 m && Qle_bool 0 v && close tol_density abs m v then 0%Z else 1%Z.
 
 (* one direction probe: the returned vector d must have unit length and be a positive multiple of
    the model's un-normalised direction; behind the source it must be exactly (0,0,1) *)
